@@ -12,7 +12,7 @@ import c02_cfg  # noqa
 
 PID = 'C02'
 ARITY = {'tet': 4, 'hex': 8, 'prism': 6, 'tet2': 10}
-BASE_NAMES = ['DISPLACEMENT', 'REACTION_FORCE', 'NodalSTRESS', 'NodalSTRAIN', 'NodalMISES', 'TEMPERATURE',
+BASE_NAMES = ['displacement', 'Displacement', 'disp', 'DISPLACEMENT_', 'DISP', 'DISPLACEMENT', 'REACTION_FORCE', 'NodalSTRESS', 'NodalSTRAIN', 'NodalMISES', 'TEMPERATURE',
               'ElementalSTRAIN', 'ElementalSTRESS', 'ElementalMISES', 'VELOCITY', 'x', 'E1', 'GaussSTRAINE2',
               'a_b', 'Q9', 'ContactNFORCE']
 
@@ -73,9 +73,37 @@ def cut(s):
 def gen_ids(rng, n, mode):
     if mode == 'seq':
         return list(range(1, n + 1))
+    if mode == 'offset':
+        a = rng.choice([2, 100, 9999, 2 ** 31 - 3])
+        return list(range(a, a + n))
     if mode == 'sparse':
         return rng.sample(range(1, 5000), n)
-    return rng.sample(range(10 ** 6, 2 * 10 ** 9), n)
+    return rng.sample(range(10 ** 6, 2 * 10 ** 9), n) if rng.random() < 0.7 else \
+        rng.sample(range(2 ** 31, 2 ** 31 + 10 ** 6), n)
+
+
+def store_order(rng, ids):
+    """storage order of an id list: shuffled, or almost sorted (ends in place + interior shuffled,
+    two neighbours swapped, one id moved, reversed, sorted)"""
+    ids = list(ids)
+    k = rng.choice(['shuffle', 'shuffle', 'sorted', 'reversed', 'swap', 'move', 'ends'])
+    if k == 'shuffle' or len(ids) < 3:
+        rng.shuffle(ids)
+        return ids
+    ids.sort()
+    if k == 'reversed':
+        ids.reverse()
+    elif k == 'swap':
+        i = rng.randrange(len(ids) - 1)
+        ids[i], ids[i + 1] = ids[i + 1], ids[i]
+    elif k == 'move':
+        x = ids.pop(rng.randrange(len(ids)))
+        ids.insert(rng.randrange(len(ids) + 1), x)
+    elif k == 'ends':
+        mid = ids[1:-1]
+        rng.shuffle(mid)
+        ids = [ids[0]] + mid + [ids[-1]]
+    return ids
 
 
 def gen_value(rng):
@@ -98,10 +126,12 @@ def gen_section(rng, ids, names_used, kind):
             if nm not in names_used:
                 names_used.add(nm)
                 break
-        vars_.append([nm, rng.choice([1, 1, 2, 3, 3, 6, 7, 9])])
+        # 1..30 components, with emphasis on the one/two-digit border
+        vars_.append([nm, rng.choice([1, 1, 2, 3, 3, 6, 7, 9, 9, 10, 10, 11, 12, 12, 20, rng.randint(1, 30)])])
+    while sum(n for _, n in vars_) * len(ids) > 400 and len(vars_) > 1:   # keep the Coq literals small
+        vars_.pop(0)
     tot = sum(n for _, n in vars_)
-    order = list(ids)
-    rng.shuffle(order)
+    order = store_order(rng, ids)
     return {'vars': vars_, 'rows': [[i, [tok(gen_value(rng)) for _ in range(tot)]] for i in order]}
 
 
@@ -132,10 +162,9 @@ def gen_case(rng, cid):
     counts = [rng.choice([1, 1, 2, 3]) for _ in types]
     need = max(ARITY[t] for t in types)
     nn = rng.choice([need, need + 1, need + 3])
-    nids = gen_ids(rng, nn, rng.choice(['seq', 'sparse', 'sparse', 'large']))
-    rng.shuffle(nids)
-    eids = gen_ids(rng, sum(counts), rng.choice(['seq', 'sparse', 'sparse', 'large']))
-    rng.shuffle(eids)
+    nids = store_order(rng, gen_ids(rng, nn, rng.choice(['seq', 'offset', 'sparse', 'sparse', 'large'])))
+    eids = gen_ids(rng, sum(counts), rng.choice(['seq', 'offset', 'sparse', 'sparse', 'large']))
+    rng.shuffle(eids)                      # interleaves the ids across the type blocks
     elems, k, cursor = [], 0, 0
     for t, cnt in zip(types, counts):
         conn = []
@@ -147,7 +176,7 @@ def gen_case(rng, cid):
                 if cand not in row:
                     row.append(cand)
             conn.append(row)
-        elems.append({'type': t, 'ids': eids[k:k + cnt], 'conn': conn})
+        elems.append({'type': t, 'ids': store_order(rng, eids[k:k + cnt]), 'conn': conn})
         k += cnt
     # every node must be referenced (femio drops unreferenced nodes before reading results)
     used = {x for b in elems for r in b['conn'] for x in r}
@@ -160,6 +189,10 @@ def gen_case(rng, cid):
                    'nelem': len(eids),
                    'wc': rng.choice([1, 2, 3, 10, 10]), 'w': rng.choice([1, 2, 3, 5, 5, 5, 8])}
     c['time_series'] = rng.random() < 0.5
+    # how the flag is passed: falsy / truthy non-bool values must behave like False / True
+    c['ts_arg'] = rng.choice(['True', 'True', '1', 'np.True_']) if c['time_series'] else \
+        rng.choice(['False', 'False', 'None', '0', 'np.False_', 'omitted'])
+    c['read_twice'] = rng.random() < 0.25      # the same query twice on the same directory
     nsteps = rng.choice([1, 2, 2, 3, 4, 6]) if c['time_series'] else rng.choice([1, 2, 3, 4])
     steps = gen_steps(rng, nsteps)
     used_names = set()
@@ -459,6 +492,9 @@ def check_real(ctx):
 # ----------------------------------------------------------------------- main
 def case_for_replay(c):
     d = {k: c[k] for k in ('mesh', 'layout', 'time_series', 'files')}
+    for k in ('ts_arg', 'read_twice'):
+        if k in c:
+            d[k] = c[k]
     if c.get('path_key'):
         d['path_key'] = c['path_key']
         if c.get('_prev') is not None:
@@ -485,6 +521,10 @@ def check_cases(ctx, cases, tag, tie_ok, cfg):
     for c in cases:
         ctx.count('history:' + ('same-dir-rewrite' if c.get('_prev') else 'fresh-dir'))
         ctx.count('max_step_digits:%d' % len(str(max(f['step'] for f in c['files']))))
+        ctx.count('max_components:%s' % ('>=10' if max(n for _, n in c['files'][0]['content']['nodal']['vars']
+                                                       + ((c['files'][0]['content']['elemental'] or {}).get('vars') or [])) >= 10
+                                         else '<10'))
+        ctx.count('ts_arg:' + c.get('ts_arg', 'bool'))
         for f in c['files']:
             for sec in (f['content']['nodal'], f['content']['elemental']):
                 for _, vals in (sec['rows'] if sec else []):
@@ -509,6 +549,8 @@ def check_cases(ctx, cases, tag, tie_ok, cfg):
             continue
         if outcome == 'read_error':
             oracle_bad[c['id']] = [('raised', r['read_error'])]
+        elif r.get('second_read_differs'):
+            oracle_bad[c['id']] = [('second read of the same directory differs from the first',)]
         else:
             d = oracle(c, r)
             if d:
